@@ -95,7 +95,8 @@ Ext == ExtAtoms \cup { [k |-> kd, v |-> <<x>>] : kd \in {"list", "tuple"}, x \in
 
 (* arrays: element count n, every factorisation into <= 2 axes, data patterns, dtypes *)
 Shapes2(n) == { <<n>> } \cup { <<a, n \div a>> : a \in { d \in 1..n : n % d = 0 } }
-DTypes == {"int64", "float64", "int32", "float32", "int8", "uint8", "bool"}
+DTypes == {"int64", "float64", "int32", "float32", "int8", "uint8", "bool",
+           "i4,f4", "f4,i4"}      \* structured element types of equal size (fields f0, f1): all-zero arrays share their bytes
 Lit(dt, b) == IF dt = "bool" THEN (IF b = 1 THEN "True" ELSE "False")
               ELSE IF dt \in {"float64", "float32"} THEN (IF b = 1 THEN "1.0" ELSE "0.0")
               ELSE (IF b = 1 THEN "1" ELSE "0")
